@@ -1,13 +1,18 @@
 #!/bin/bash
-# seedtest.sh <seedname> <property>... : apply a seeded change to /repo, run the named checks, undo it.
+# seedtest.sh <seedname> <property>... : apply a seeded change to /repo, run the named checks, undo it,
+# then re-run the checks on the clean tree so that the evidence files describe the unchanged tree.
 NAME=$1; shift
 cd /verif
 git -C /repo diff --quiet || { echo "/repo is dirty"; exit 2; }
 git -C /repo apply /verif/seeded/$NAME/patch.diff || exit 3
 for P in "$@"; do
   echo "--- $NAME -> ./check $P"
-  ./check $P --tier ${TIER:-quick} | tail -5
+  ./check $P --tier ${TIER:-quick} | tail -5 | cut -c1-300
 done
 git -C /repo checkout -- .
 git -C /repo status --short | head
-python3 /verif/lib/gen_consts.py
+python3 /verif/lib/gen_consts.py > /dev/null
+for P in "$@"; do
+  echo "--- clean -> ./check $P"
+  ./check $P --tier quick | tail -2 | cut -c1-200
+done
